@@ -529,7 +529,40 @@ func (g *Gen) gotoStmt() []Stmt {
 	g.fn.labels++
 	lbl := fmt.Sprintf("L%d_%d", g.fn.level, g.n+g.fn.labels*1000)
 	g.n++
-	switch g.R.Intn(3) {
+	switch g.R.Intn(5) {
+	case 3, 4:
+		// forward jump over local declarations to a label that ends its block
+		// (a label at the end of a block is outside the scope of the block's
+		// locals): in a do block, a loop body, an if block or a function body
+		x := g.fresh("sk")
+		mkBody := func(cond Expr) *Block {
+			return Blk(
+				&SIf{Conds: []Expr{cond}, Blocks: []*Block{Blk(&SGoto{Label: lbl})}},
+				Local1(x, Num(float64(g.R.Intn(50)))),
+				CallSN("emit", Str("not-skipped"), N(x)),
+				&SLabel{Name: lbl})
+		}
+		constCond := func() Expr { return Bin("<", Num(float64(g.R.Intn(4))), Num(2)) }
+		switch g.R.Intn(4) {
+		case 0:
+			g.cover("goto:skip-local-do")
+			return []Stmt{&SDo{Body: mkBody(constCond())}}
+		case 1:
+			g.cover("goto:skip-local-loop")
+			iv := g.fresh("i")
+			return []Stmt{&SNumFor{Var: iv, Start: Num(1), Limit: Num(3), Body: mkBody(Bin("==", Bin("%", N(iv), Num(2)), Num(0)))}}
+		case 2:
+			g.cover("goto:skip-local-if")
+			return []Stmt{&SIf{Sites: make([]Site, 1), Conds: []Expr{&ETrue{}}, Blocks: []*Block{mkBody(constCond())}}}
+		default:
+			g.cover("goto:skip-local-function-body")
+			f := g.fresh("gf")
+			fn := &Func{Params: []string{"a"}, Body: mkBody(N("a"))}
+			if g.R.Intn(2) == 0 {
+				return []Stmt{&SLocalFunc{Name: f, F: fn}, CallS(N(f), &ETrue{}), CallS(N(f), &EFalse{})}
+			}
+			return []Stmt{Local1(f, &EFunc{F: fn}), CallS(N(f), &EFalse{}), CallS(N(f), &ETrue{})}
+		}
 	case 0:
 		// continue idiom inside a numeric for
 		iv := g.fresh("i")
